@@ -116,6 +116,7 @@ class Cursor(object):
         self.top = type(self.m).__name__
         self.bounds = False
         self.qmax = None
+        self.twins = []   # [matcher, model index]: other cursors over the same list (copies) that must stay independent
 
     # -- helpers
     def _cls(self):
@@ -260,8 +261,59 @@ class Cursor(object):
         self.m, self.i = c, old_i
         self.check_position("copy:copy-unmoved")
         self.check_reads("copy:copy-reads")
-        if not follow_copy:
+        # keep the other cursor alive as a twin: whatever happens to one must never move the other
+        if follow_copy:
+            self.twins.append([orig, orig_i])
+        else:
+            self.twins.append([c, old_i])
             self.m, self.i = orig, orig_i
+        del self.twins[:-2]
+
+    def check_twins(self, op):
+        """Every live copy/original pair is an independent cursor: operations on the main cursor must
+        not have moved a twin (position and score are re-read)."""
+        if self.qmax is not None and self.qmax > 0:
+            return
+        for tw in self.twins:
+            tm, ti = tw
+            self.ctx.count(self.prefix + ".twin_checks")
+            act = bool(tm.is_active())
+            if act != (ti < len(self.ref)):
+                self.viol("%s:twin:is_active" % op, "a copy taken earlier changed activity (is_active=%r, its cursor %d of %d) after %s on the other cursor" % (
+                    act, ti, len(self.ref), op))
+            if act:
+                got = tm.id()
+                if got != self.ref[ti].id:
+                    self.viol("%s:twin:id" % op, "a copy taken earlier moved from id %r to %r after %s on the other cursor" % (
+                        self.ref[ti].id, got, op))
+                if self.scored and self.ref[ti].score is not None:
+                    sc = tm.score()
+                    if not close(sc, self.ref[ti].score):
+                        self.viol("%s:twin:score" % op, "a copy taken earlier now scores %r instead of %r at id %r" % (sc, self.ref[ti].score, got))
+
+    def op_twin(self, what, arg=None):
+        """Operate on the most recent twin, then make sure the MAIN cursor did not move."""
+        if not self.twins:
+            return
+        tw = self.twins[-1]
+        tm, ti = tw
+        self.trace.append("twin.%s%s" % (what, "" if arg is None else "(%r)" % (arg,)))
+        if what == "next":
+            if ti < len(self.ref):
+                tm.next()
+                tw[1] = ti + 1
+        elif what == "reset":
+            if not self.replaced:
+                tm.reset()
+                tw[1] = 0
+        elif what == "skip_to":
+            if ti < len(self.ref):
+                tm.skip_to(arg)
+                while tw[1] < len(self.ref) and self.ref[tw[1]].id < arg:
+                    tw[1] += 1
+        self.check_position("twin.%s:main-unmoved" % what)
+        self.check_reads("twin.%s:main-reads" % what)
+        self.check_twins("twin.%s" % what)
 
     def op_skip_to_quality(self, q):
         """C12: never passes an entry scoring more than q; lands on a reference entry."""
@@ -376,8 +428,11 @@ def gen_program(rng, ref, allow_quality, allow_reset=True, length=(4, 14)):
             prog.append(("reads",))
         elif r < 0.78:
             prog.append(("replace0",))
-        elif r < 0.86:
+        elif r < 0.84:
             prog.append(("copy", rng.randint(0, 3), rng.random() < 0.5))
+        elif r < 0.87:
+            what = rng.choice(["next", "next", "reset", "skip_to"])
+            prog.append(("twin", what, (rng.choice(ids) if ids else 0) if what == "skip_to" else None))
         elif r < 0.91 and allow_reset:
             prog.append(("reset",))
         elif r < 0.96 and allow_quality:
@@ -444,6 +499,8 @@ def run_program(cur, prog):
             cur.op_replace0()
         elif kind == "copy":
             cur.op_copy(op[1], op[2])
+        elif kind == "twin":
+            cur.op_twin(op[1], op[2])
         elif kind == "reset":
             if not cur.replaced:
                 cur.op_reset()
@@ -466,3 +523,5 @@ def run_program(cur, prog):
             cur.check_reads(kind)
             if cur.bounds:
                 cur.check_bounds()
+        if cur.twins:
+            cur.check_twins(kind)
